@@ -146,11 +146,11 @@ def side(job, lim, method, path):
 
 def nan_patterns(job, lim):
     nan = float('nan')
-    for n in (1, 2, 3):
+    for n, zshape in ((1, (1,)), (2, (2,)), (3, (3,)), (4, (2, 2))):
         for mask in range(1, 2 ** n):
-            pattern = [(mask >> i) & 1 for i in range(n)]      # 1 = NaN at z0
+            pattern = [(mask >> i) & 1 for i in range(n)]      # 1 = NaN at z0 (C order of the flattened z0)
             vals = [sn.real_var('v%d' % i) for i in range(n)]
-            z0 = np.array([0.5 + 0.25 * i for i in range(n)])
+            z0 = np.array([0.5 + 0.25 * i for i in range(n)]).reshape(zshape)
             calls = []
 
             def f(z, *a, **k):
@@ -159,7 +159,7 @@ def nan_patterns(job, lim):
                     out = np.empty(n, dtype=object)
                     for i in range(n):
                         out[i] = nan if pattern[i] else vals[i]
-                    return out.view(sn.SymArr)
+                    return out.reshape(zshape).view(sn.SymArr)
                 return np.ones(np.shape(z)) * 2.0
 
             def harness():
@@ -173,7 +173,8 @@ def nan_patterns(job, lim):
                 continue
             (val, info), cl = p.result
             vl, el, fl = cm.flat_list(val), cm.flat_list(info.error_estimate), cm.flat_list(info.final_step)
-            ok = len(vl) == n
+            ok = len(vl) == n and np.shape(val) == zshape
+            z0 = z0.ravel()
             for i in range(n):
                 if not pattern[i]:
                     ok &= vl[i] is vals[i] or (sn.is_sym(vl[i]) and z3.is_true(z3.simplify(sn.lift(vl[i]) == vals[i].t)))
@@ -381,20 +382,25 @@ def replay(cex):
     if kind == 'nan':
         pattern = cex.get('pattern', [1])
         n = len(pattern)
-        z0 = np.array([0.5 + 0.25 * i for i in range(n)])
+        zshape = (2, 2) if n == 4 else (n,)
+        z0 = np.array([0.5 + 0.25 * i for i in range(n)]).reshape(zshape)
         vals = rng.normal(size=n)
         calls = []
 
         def f(z):
             calls.append(1)
             if len(calls) == 1:
-                return np.where(np.array(pattern) == 1, np.nan, vals)
+                return np.where(np.array(pattern) == 1, np.nan, vals).reshape(zshape)
             return np.ones(np.shape(z)) * 2.0
         try:
             with cm.quiet():
                 val, info = lim.Limit(f, full_output=True)(z0)
         except Exception as e:  # noqa
             return True, 'Limit raises %s: %s for NaN pattern %s' % (type(e).__name__, e, pattern)
+        if np.shape(val) != zshape:
+            return True, 'result shape %s for z0 of shape %s' % (np.shape(val), zshape)
+        val, ee = np.ravel(val), np.ravel(info.error_estimate)
+        info = info._replace(error_estimate=ee)
         for i in range(n):
             if not pattern[i] and (val[i] != vals[i] or info.error_estimate[i] != 0):
                 return True, 'finite entry %d changed from %r to %r (pattern %s)' % (i, vals[i], val[i], pattern)
